@@ -1,3 +1,4 @@
+import TemplVerif.Generated.Skeletons
 import TemplVerif.Model.Norm
 import TemplVerif.Proofs.Norm
 import TemplVerif.Proofs.Spaced
@@ -50,5 +51,73 @@ example :
         (.cons (.strExpr [83] .horiz) (.cons (.element [98] .nil (.cons (.text [120] .none) .nil) .none false false) .nil)) .none false false) .nil
     Norm.body multi = Norm.body single ∧ Norm.body multi = single := by
   decide
+
+-- BEGIN transcription pins (written by tools/mkpins.py)
+/-- T1, transcription pins: the control structure and calls (extract/skeleton.go) of the functions whose models
+    were written by hand are the ones the models were transcribed from:
+      parser/v2/types.go BoolConstantAttribute.Write
+      parser/v2/types.go BoolExpressionAttribute.Write
+      parser/v2/types.go CSSTemplate.Write
+      parser/v2/types.go CallTemplateExpression.Write
+      parser/v2/types.go ChildrenExpression.Write
+      parser/v2/types.go ConditionalAttribute.Write
+      parser/v2/types.go ConstantAttribute.Write
+      parser/v2/types.go ConstantCSSProperty.Write
+      parser/v2/types.go DocType.Write
+      parser/v2/types.go Element.Write
+      parser/v2/types.go ExpressionAttribute.Write
+      parser/v2/types.go ExpressionCSSProperty.Write
+      parser/v2/types.go ForExpression.Write
+      parser/v2/types.go GoCode.Write
+      parser/v2/types.go GoComment.Write
+      parser/v2/types.go HTMLComment.Write
+      parser/v2/types.go HTMLTemplate.Write
+      parser/v2/types.go IfExpression.Write
+      parser/v2/types.go Package.Write
+      parser/v2/types.go RawElement.Write
+      parser/v2/types.go ScriptElement.Write
+      parser/v2/types.go ScriptTemplate.Write
+      parser/v2/types.go SpreadAttributes.Write
+      parser/v2/types.go StringExpression.Write
+      parser/v2/types.go SwitchExpression.Write
+      parser/v2/types.go TemplElementExpression.Write
+      parser/v2/types.go TemplateFile.Write
+      parser/v2/types.go TemplateFileGoExpression.Write
+      parser/v2/types.go Text.Write
+      parser/v2/types.go Whitespace.Write
+    A change of what one of them calls or how it branches breaks this theorem; the check then searches for a
+    failing input and reports either that or `no-failing-input-found`. -/
+theorem C08_transcription_pinned :
+    Generated.skel_fmt_BoolConstantAttribute = 17964454261460013838 ∧
+    Generated.skel_fmt_BoolExpressionAttribute = 11243877805884256764 ∧
+    Generated.skel_fmt_CSSTemplate = 10486559759305371780 ∧
+    Generated.skel_fmt_CallTemplateExpression = 4754677790992354005 ∧
+    Generated.skel_fmt_ChildrenExpression = 8973048098999815633 ∧
+    Generated.skel_fmt_ConditionalAttribute = 2131278597794675548 ∧
+    Generated.skel_fmt_ConstantAttribute = 17190133187334056934 ∧
+    Generated.skel_fmt_ConstantCSSProperty = 9028660431953749041 ∧
+    Generated.skel_fmt_DocType = 2337572934743534415 ∧
+    Generated.skel_fmt_Element = 15653131509271426703 ∧
+    Generated.skel_fmt_ExpressionAttribute = 15138201634416348715 ∧
+    Generated.skel_fmt_ExpressionCSSProperty = 17518302242369419524 ∧
+    Generated.skel_fmt_ForExpression = 1342625959466410837 ∧
+    Generated.skel_fmt_GoCode = 5520114962642325106 ∧
+    Generated.skel_fmt_GoComment = 2865620347699289652 ∧
+    Generated.skel_fmt_HTMLComment = 2337572934743534415 ∧
+    Generated.skel_fmt_HTMLTemplate = 12553196804296595469 ∧
+    Generated.skel_fmt_IfExpression = 3942449742783697541 ∧
+    Generated.skel_fmt_Package = 2337572934743534415 ∧
+    Generated.skel_fmt_RawElement = 11505227016490775874 ∧
+    Generated.skel_fmt_ScriptElement = 8089826004982831993 ∧
+    Generated.skel_fmt_ScriptTemplate = 10019798481422971980 ∧
+    Generated.skel_fmt_SpreadAttributes = 15030267648810377398 ∧
+    Generated.skel_fmt_StringExpression = 8810321671428492873 ∧
+    Generated.skel_fmt_SwitchExpression = 11736646981924421930 ∧
+    Generated.skel_fmt_TemplElementExpression = 17089425217095634118 ∧
+    Generated.skel_fmt_TemplateFile = 8684252644459683408 ∧
+    Generated.skel_fmt_TemplateFileGoExpression = 15670954479218328045 ∧
+    Generated.skel_fmt_Text = 2337572934743534415 ∧
+    Generated.skel_fmt_Whitespace = 13121865947735479079 := by decide
+-- END transcription pins
 
 end TemplVerif.Props.C08
